@@ -2,6 +2,7 @@ package main
 
 import (
 	"fmt"
+	"time"
 
 	"symgo/sym"
 )
@@ -59,6 +60,9 @@ var commonAssumptions = []string{
 
 func allProps() []*Prop {
 	return []*Prop{
+		propC02(),
+		propC05(),
+		propC06(),
 		propC07(),
 		propC08(),
 		propC09(),
@@ -143,5 +147,128 @@ func propC08() *Prop {
 			"thorough": "same, histories <= 5 events",
 		},
 		Outside: []string{"thresholds above 3 in the recovery script (loop bound)"},
+	}
+}
+
+var strategyNames = []string{"round_robin", "least_connections", "weighted_round_robin", "ip_hash", "ip_hash_consistent"}
+
+// rrJob: round-robin jobs contain 64-bit urem by a non-power-of-two; only the
+// integer-blasting back end decides them quickly.
+func rrJob(j *sym.Job) *sym.Job {
+	j.Primary = "cvc5-int"
+	j.Cross = "z3-new"
+	j.CrossTimeout = 3 * time.Second
+	j.CrossCheckEvery = 25
+	return j
+}
+
+func propC02() *Prop {
+	return &Prop{
+		ID: "C02", Title: "Failover: only healthy backends are used; 503 only when none is healthy",
+		Jobs: func(tier string) []*sym.Job {
+			var js []*sym.Job
+			maxN := tierPick(tier, 4, 6)
+			for s := int64(0); s < 5; s++ {
+				for n := int64(1); n <= maxN; n++ {
+					if s == 3 && n > tierPick(tier, 3, 4) {
+						continue // symbolic client string: n^... paths
+					}
+					j := job(fmt.Sprintf("C02/dispatch[%s,N=%d]", strategyNames[s], n), "loadbalancer", "VerifC02Dispatch", s, n)
+					if s == 0 {
+						rrJob(j)
+					}
+					js = append(js, j)
+				}
+			}
+			return js
+		},
+		Assumptions: append([]string{"pool state is arbitrary: per backend any health flag, window end zero or any instant within 2^40 ns of now, any gauge 0..2^30, any weight 1..1024, any smooth-WRR running weight within +-2^20, any rotation counter < 2^63 (over-approximates every history of ejections, expiries, adds and removes)"}, commonAssumptions...),
+		Bounds: map[string]string{
+			"quick":    "pools of 1..4 backends, all five strategies, one dispatch decision from an arbitrary state; ip_hash with every 3-byte client string for N<=3; ip_hash_consistent with one concrete client",
+			"thorough": "pools of 1..6 backends (ip_hash symbolic client N<=4)",
+		},
+		Outside: []string{"pools larger than 6", "client strings other than 3 bytes in this property (see C06)"},
+	}
+}
+
+func propC05() *Prop {
+	return &Prop{
+		ID: "C05", Title: "Distribution contracts of round_robin, weighted_round_robin, least_connections",
+		Jobs: func(tier string) []*sym.Job {
+			var js []*sym.Job
+			for n := int64(1); n <= tierPick(tier, 5, 8); n++ {
+				rounds := int64(2)
+				if n > 4 {
+					rounds = 1
+				}
+				js = append(js, rrJob(job(fmt.Sprintf("C05a/round_robin-window[N=%d,rounds=%d]", n, rounds), "loadbalancer", "VerifC05RoundRobin", n, rounds)))
+			}
+			for n := int64(1); n <= tierPick(tier, 4, 6); n++ {
+				js = append(js, job(fmt.Sprintf("C05d/least_connections[N=%d]", n), "loadbalancer", "VerifC05LeastConn", n))
+			}
+			js = append(js, job("C05b/wrr-cycle[N=1,w<=6]", "loadbalancer", "VerifC05WRRCycle", 1, 6))
+			js = append(js, job("C05b/wrr-cycle[N=2,w<=6]", "loadbalancer", "VerifC05WRRCycle", 2, 6))
+			js = append(js, job(fmt.Sprintf("C05b/wrr-cycle[N=3,w<=%d]", tierPick(tier, 4, 6)), "loadbalancer", "VerifC05WRRCycle", 3, tierPick(tier, 4, 6)))
+			if tier == "thorough" {
+				js = append(js, job("C05b/wrr-cycle[N=4,w<=4]", "loadbalancer", "VerifC05WRRCycle", 4, 4))
+			}
+			js = append(js, neg(job("C05b/negative-twin", "loadbalancer", "VerifC05NegWRR")))
+			for _, j := range js {
+				if j.LoopBound == 0 {
+					j.LoopBound = 64
+				}
+			}
+			return js
+		},
+		Assumptions: append([]string{"round_robin: rotation counter < 2^63 (reachable-counter assumption: 292 years at 10^9 requests/s)", "picks go through the real findHealthyBackend; backends are eligible (healthy flag set) for the distribution clauses"}, commonAssumptions...),
+		Bounds: map[string]string{
+			"quick":    "round_robin N<=5 with any rotation counter (2 consecutive windows for N<=4); least_connections N<=4 with any gauges 0..2^30 and any health state; smooth WRR exact cycle from a fresh pool built by AddBackend: N<=2 with weights 0..6, N=3 with weights 0..4",
+			"thorough": "round_robin N<=8; least_connections N<=6; WRR N=3 weights 0..6, N=4 weights 0..4",
+		},
+		Outside: []string{"bounded-drift clause of weighted_round_robin after membership/health histories (not yet encoded)", "concurrent pickers (see C12 for the pairwise race/atomicity check)", "pools above the stated sizes"},
+	}
+}
+
+func propC06() *Prop {
+	return &Prop{
+		ID: "C06", Title: "Client affinity (ip_hash) and minimal remapping (ip_hash_consistent)",
+		Jobs: func(tier string) []*sym.Job {
+			var js []*sym.Job
+			add := func(j *sym.Job) { j.RandomModels = 1000; j.LoopBound = 64; js = append(js, j) }
+			for n := int64(1); n <= tierPick(tier, 4, 8); n++ {
+				add(job(fmt.Sprintf("C06a/jumpHash[all 2^32 hashes,n=%d->%d]", n, n+1), "loadbalancer", "VerifC06Jump", n))
+			}
+			for n := int64(1); n <= tierPick(tier, 2, 3); n++ {
+				add(job(fmt.Sprintf("C06a/jumpHash[all 2^64 keys,n=%d->%d]", n, n+1), "loadbalancer", "VerifC06Jump64", n))
+			}
+			maxL := tierPick(tier, 3, 5)
+			for mode := int64(0); mode < 3; mode++ {
+				for l := int64(0); l <= maxL; l++ {
+					for n := int64(1); n <= 3; n++ {
+						add(job(fmt.Sprintf("C06b/valid[ip_hash,N=%d,L=%d,mode=%d]", n, l, mode), "loadbalancer", "VerifC06Valid", 3, n, l, mode))
+						if n <= 2 && l <= tierPick(tier, 2, 3) {
+							add(job(fmt.Sprintf("C06b/valid[ip_hash_consistent,N=%d,L=%d,mode=%d]", n, l, mode), "loadbalancer", "VerifC06Valid", 4, n, l, mode))
+						}
+					}
+					add(job(fmt.Sprintf("C06c/affinity[ip_hash,N=3,L=%d,mode=%d]", l, mode), "loadbalancer", "VerifC06Affinity", 3, 3, l, mode))
+					if l <= 2 {
+						add(job(fmt.Sprintf("C06c/affinity[ip_hash_consistent,N=2,L=%d,mode=%d]", l, mode), "loadbalancer", "VerifC06Affinity", 4, 2, l, mode))
+					}
+				}
+			}
+			for n := int64(1); n <= tierPick(tier, 2, 3); n++ {
+				for l := int64(1); l <= 2; l++ {
+					add(job(fmt.Sprintf("C06d/append[N=%d->%d,L=%d]", n, n+1, l), "loadbalancer", "VerifC06Append", n, l))
+				}
+			}
+			js = append(js, neg(job("C06c/negative-twin", "loadbalancer", "VerifC06NegAffinity")))
+			return js
+		},
+		Assumptions: append([]string{"net.SplitHostPort on a symbolic string is modelled by its documented behaviour for strings without brackets (split at the single colon; error otherwise); bracketed IPv6 literals in RemoteAddr are outside the string model", "strings.Contains/Split, hash/fnv, net/http.Header run from their real SSA bodies / string-level models"}, commonAssumptions...),
+		Bounds: map[string]string{
+			"quick":    "jumpHash: every 32-bit hash for n=1..4 (and n+1), every 64-bit key for n<=2; strategies: every attribution string of 0..3 arbitrary bytes in X-Forwarded-For / X-Real-IP / RemoteAddr, pools <=3 (ip_hash) / <=2 (consistent), every flag pattern",
+			"thorough": "jumpHash n<=8 (32-bit), n<=3 (64-bit); strings up to 5 bytes",
+		},
+		Outside: []string{"attribution strings longer than the bound", "bracketed RemoteAddr forms", "hash distribution quality"},
 	}
 }
